@@ -11,21 +11,34 @@ from ..e3_state import State
 from ..e3_values import *  # noqa
 from ..e3_interp import Raised, PathLimit
 from .common import norm, calls_in
+from . import fmtterms as ft_
 
 SPAN = ("mstart", "mend")
 
 
 def resolution_classes(ctx):
-    """Classes parse_nb_string can return (located by role)."""
-    cm = ctx.mod("ctparse.corpus")
+    """Classes a gold string can denote: the value classes of types.py that can be read back
+    from their text form (an Artifact subclass that defines from_str)."""
+    cm = ctx.imod("ctparse.corpus")
     f = cm.func("parse_nb_string")
+    tm = ctx.imod("ctparse.types")
     names = []
-    for r in ast.walk(f):
-        if isinstance(r, ast.Return) and isinstance(r.value, ast.Call) and \
-                isinstance(r.value.func, ast.Attribute) and isinstance(r.value.func.value, ast.Name):
-            names.append(r.value.func.value.id)
+
+    def derives(cname, seen=()):
+        cls = tm.classes.get(cname)
+        if cls is None or cname in seen:
+            return False
+        for b_ in cls.bases:
+            if isinstance(b_, ast.Name) and (b_.id == "Artifact" or derives(b_.id, seen + (cname,))):
+                return True
+        return False
+    for cname in tm.classes:
+        if "." in cname:
+            continue
+        if derives(cname) and (cname + ".from_str") in tm.funcs:
+            names.append(cname)
     if not names:
-        raise AnalysisError("anchor vanished: parse_nb_string returns")
+        raise AnalysisError("anchor vanished: value classes with from_str in ctparse/types.py")
     return names, f, cm
 
 
@@ -56,7 +69,7 @@ def check(ctx, rep, tier):
 
 
 def _value_fields(ctx, rep, eng, name):
-    tm = ctx.mod("ctparse.types")
+    tm = ctx.imod("ctparse.types")
     cls = tm.classes.get(name)
     if cls is None:
         raise AnalysisError("anchor vanished: class {}".format(name))
@@ -111,7 +124,7 @@ def _value_fields(ctx, rep, eng, name):
 
 
 def _eq_hash(ctx, rep):
-    tm = ctx.mod("ctparse.types")
+    tm = ctx.imod("ctparse.types")
     for cname, cls in tm.classes.items():
         eq = tm.funcs.get(cname + ".__eq__")
         hs = tm.funcs.get(cname + ".__hash__")
@@ -142,10 +155,101 @@ def _eq_hash(ctx, rep):
                 "" if pure else ("__hash__ stores {} on the instance: a later field change or a copy made in "
                                  "another process keeps a stale hash".format(norm(stores[0])) if stores else
                                  "__hash__ reads {} instead of the value fields".format(other_reads)))
-        # every attribute compared with ==, all of them
-        uses_all = any(isinstance(n, ast.Call) and norm(n.func) == "all" for n in ast.walk(eq))
-        rep.add("eq-hash", c + "::all attributes compared", tm.where(eq), uses_all,
-                "" if uses_all else "__eq__ does not compare all listed attributes")
+        # every attribute compared with ==, all of them: decided on the abstract interpretation
+        # of __eq__ on two instances with unknown field values (below, per resolution class)
+        _eq_semantics(ctx, rep, tm, cname, eq)
+
+
+def _abstract_instance(ip, tm, st, cname, tag):
+    cls = tm.classes.get(cname)
+    cv = ClassV(tm, cls)
+    mem = ip.find_member(cv, "__init__")
+    if mem is None:
+        return None, None
+    params = [a.arg for a in mem[2].args.args][1:]
+    args = [TopV("{}.{}".format(tag, p), sym=("ctorarg", tag, p)) for p in params]
+    outs = [(s, r) for s, r in ip.instantiate(st, cv, args, {}, cls) if not isinstance(r, Raised)]
+    if len(outs) != 1:
+        return None, None
+    return outs[0]
+
+
+def _eq_semantics(ctx, rep, tm, base, eq):
+    """__eq__ of the value classes, interpreted on two instances a, b of the same class whose
+    fields are unknown: every path that answers True must have compared every listed attribute
+    of a with the same attribute of b; against an instance of another class no path answers True."""
+    eng = get_engine(ctx)
+    ip = eng.interp
+    names, _pf, _cm = resolution_classes(ctx)
+    c0 = "{}::{}".format(tm.rel, base)
+    for cname in names:
+        st = State()
+        st.frames.append({})
+        ip.cur_mod.append(tm)
+        ip.cur_func.append("<eq {}>".format(cname))
+        ip.cur_fnode.append(None)
+        ip.paths = 0
+        und = None
+        missing = {}
+        cross_true = False
+        try:
+            s1, a = _abstract_instance(ip, tm, st, cname, "a")
+            s2, b = (None, None) if a is None else _abstract_instance(ip, tm, s1, cname, "b")
+            if a is None or b is None:
+                und = "constructor not interpretable on unknown arguments"
+            else:
+                oa, ob = s2.heap[a.oid], s2.heap[b.oid]
+                al = oa.attrs.get("_attrs")
+                if not isinstance(al, TupleV) or not all(isinstance(x, StrV) and x.is_const() for x in al.items):
+                    und = "attribute list is not a constant list"
+                else:
+                    attrs = [x.const() for x in al.items]
+                    mem = ip.find_member(oa.cls, "__eq__")
+                    fv = FuncV(mem[1], mem[2], bound_self=a)
+                    n_true = 0
+                    for s3, oc in ip.call_func(fv, [b], {}, s2, mem[2]):
+                        if s3.undecided:
+                            und = und or s3.undecided[0][2]
+                        if oc[0] != "ret":
+                            continue
+                        v = oc[1]
+                        if not (isinstance(v, BoolV) and v.value is True):
+                            continue
+                        n_true += 1
+                        eqs = set()
+                        for cnd, truth in s3.conds:
+                            if truth and isinstance(cnd, tuple) and len(cnd) == 4 and cnd[0] == "cmp" and cnd[1] == "Eq":
+                                eqs.add(frozenset([cnd[2], cnd[3]]))
+                        for f in attrs:
+                            va, vb = oa.attrs.get(f), ob.attrs.get(f)
+                            pair = frozenset([getattr(va, "sym", None), getattr(vb, "sym", None)])
+                            if pair not in eqs:
+                                missing.setdefault(f, 0)
+                                missing[f] += 1
+                    if n_true == 0 and not und:
+                        und = "no path of __eq__ answers True on two instances of one class"
+                    # another class
+                    other = [n for n in names if n != cname]
+                    if other and not und:
+                        s4, cobj = _abstract_instance(ip, tm, s2, other[0], "c")
+                        if cobj is not None:
+                            for s5, oc in ip.call_func(fv, [cobj], {}, s4, mem[2]):
+                                if oc[0] == "ret" and isinstance(oc[1], BoolV) and oc[1].value is not False:
+                                    cross_true = other[0]
+        except PathLimit:
+            und = "path limit"
+        finally:
+            ip.cur_mod.pop()
+            ip.cur_func.pop()
+            ip.cur_fnode.pop()
+        c = "{}::all attributes compared [{}]".format(c0, cname)
+        if und:
+            rep.undecided("eq-hash", c, tm.where(eq), und)
+            continue
+        rep.add("eq-hash", c, tm.where(eq), not missing,
+                "" if not missing else "__eq__ can answer True without comparing {}".format(sorted(missing)))
+        rep.add("eq-hash", "{}::other kinds are unequal [{}]".format(c0, cname), tm.where(eq), not cross_true,
+                "" if not cross_true else "a {} can compare equal to a {}".format(cname, cross_true))
 
 
 def _format_fields(fmt):
@@ -157,53 +261,32 @@ def _format_fields(fmt):
 
 
 def _time_print_parse(ctx, rep):
-    tm = ctx.mod("ctparse.types")
+    tm = ctx.imod("ctparse.types")
     st = tm.func("Time.__str__")
     fs = tm.func("Time.from_str")
     c = tm.rel + "::Time"
-    # printer: outer format literal + one argument per field
-    ret = [r for r in ast.walk(st) if isinstance(r, ast.Return)]
-    call = ret[0].value if ret else None
-    if not (isinstance(call, ast.Call) and isinstance(call.func, ast.Attribute) and call.func.attr == "format"
-            and isinstance(call.func.value, ast.Constant)):
-        rep.undecided("print-parse", c + "::__str__", tm.where(st), "printer is not literal.format(...)")
+    # printer: the returned value as a template of literals and fields (sa/checks/fmtterms.py)
+    parts = ft_.returned_template(tm, st)
+    af = ft_.as_format(parts) if parts is not None else None
+    if af is None:
+        rep.undecided("print-parse", c + "::__str__", tm.where(st), "printer not understood: {}".format(
+            [p_ for p_ in (parts or []) if p_[0] == "?"][:2] or "no single returned value"))
         return
-    outer = call.func.value.value
+    outer, flds = af
     printed = []      # (field, spec, absent marker)
-    for a in call.args:
-        fld = spec = marker = None
-        if isinstance(a, ast.BoolOp) and isinstance(a.op, ast.Or) and len(a.values) == 2 and \
-                isinstance(a.values[0], ast.Attribute) and norm(a.values[0].value) == "self" and \
-                isinstance(a.values[1], ast.Constant):
-            # `self.F or MARK`: falsy values print as the absent marker
-            fld, spec, marker = a.values[0].attr, "", a.values[1].value
+    for (_k, src, spec, conv, absent, guard) in flds:
+        fld = src[5:] if src.startswith("self.") and src[5:].isidentifier() else None
+        if fld is None or absent is None:
+            printed.append((None, spec, absent))
+            continue
+        if guard == "truthy":
+            # a truthiness test makes falsy values (0, '') print as the absent marker
             falsy = {"hour": 0, "minute": 0, "DOW": 0}.get(fld)
             if falsy is not None:
                 rep.violated("print-parse", "{}::field {} printed when present".format(c, fld), tm.where(st),
-                             "field {} is printed as `self.{} or {!r}`: the value {} prints as the absent "
-                             "marker and does not parse back".format(fld, fld, marker, falsy))
-            printed.append((fld, spec, marker))
-            continue
-        if isinstance(a, ast.IfExp) and isinstance(a.body, ast.Call) and isinstance(a.body.func, ast.Attribute) \
-                and isinstance(a.body.func.value, ast.Constant) and a.body.args:
-            ff = _format_fields(a.body.func.value.value)
-            spec = ff[0][2] if ff else ""
-            arg = a.body.args[0]
-            if isinstance(arg, ast.Attribute) and norm(arg.value) == "self":
-                fld = arg.attr
-            if isinstance(a.orelse, ast.Constant):
-                marker = a.orelse.value
-            # the guard tests the same field for None; a truthiness test makes falsy
-            # values (0, '') print as the absent marker
-            if fld and norm(a.test) == "self.{}".format(fld):
-                falsy = {"hour": 0, "minute": 0, "DOW": 0}.get(fld)
-                if falsy is not None:
-                    rep.violated("print-parse", "{}::field {} printed when present".format(c, fld), tm.where(st),
-                                 "field {} is tested by truthiness: the value {} prints as the absent "
-                                 "marker and does not parse back".format(fld, falsy))
-            elif not (fld and "self.{} is not None".format(fld) == norm(a.test)):
-                fld = None
-        printed.append((fld, spec, marker))
+                             "field {} is tested by truthiness: the value {} prints as the absent "
+                             "marker and does not parse back".format(fld, falsy))
+        printed.append((fld, spec, absent))
     if any(f is None for f, _, _ in printed):
         rep.undecided("print-parse", c + "::__str__", tm.where(st), "a printed field is not 'fmt.format(self.F) if self.F is not None else MARK'")
         return
@@ -231,13 +314,19 @@ def _time_print_parse(ctx, rep):
                         and g.args and isinstance(g.args[0], ast.Constant):
                     idx = g.args[0].value
                 if isinstance(g, ast.Name):
-                    # pod = match.group(7)
+                    # pod = match.group(7)   /   year, month, ... = match.groups()
                     for a in ast.walk(fs):
                         if isinstance(a, ast.Assign) and norm(a.targets[0]) == g.id:
                             for gg in ast.walk(a.value):
                                 if isinstance(gg, ast.Call) and isinstance(gg.func, ast.Attribute) \
                                         and gg.func.attr == "group" and gg.args and isinstance(gg.args[0], ast.Constant):
                                     idx = idx or gg.args[0].value
+                        if isinstance(a, ast.Assign) and len(a.targets) == 1 and isinstance(a.targets[0], (ast.Tuple, ast.List)) \
+                                and isinstance(a.value, ast.Call) and isinstance(a.value.func, ast.Attribute) \
+                                and a.value.func.attr == "groups" and not a.value.args:
+                            names_ = [norm(t_) for t_ in a.targets[0].elts]
+                            if g.id in names_:
+                                idx = idx or (names_.index(g.id) + 1)
             kw_group[k.arg] = idx
     ok_map = True
     det = ""
@@ -300,114 +389,187 @@ def _time_print_parse(ctx, rep):
 
 
 def _interval_print_parse(ctx, rep):
-    tm = ctx.mod("ctparse.types")
+    """Interval: the printer's template gives the order of the ends and the separator; from_str is
+    constant-propagated on printed forms whose ends are markers (and on open ends)."""
+    tm = ctx.imod("ctparse.types")
     st = tm.func("Interval.__str__")
     fs = tm.func("Interval.from_str")
     c = tm.rel + "::Interval"
-    ret = [r for r in ast.walk(st) if isinstance(r, ast.Return)]
-    call = ret[0].value if ret else None
-    if not (isinstance(call, ast.Call) and isinstance(call.func, ast.Attribute) and call.func.attr == "format"
-            and isinstance(call.func.value, ast.Constant)):
-        rep.undecided("print-parse", c + "::__str__", tm.where(st), "printer is not literal.format(...)")
+    parts = ft_.returned_template(tm, st)
+    af = ft_.as_format(parts) if parts is not None else None
+    if af is None:
+        rep.undecided("print-parse", c + "::__str__", tm.where(st), "printer not understood")
         return
-    outer = call.func.value.value
-    ff = _format_fields(outer)
-    sep = ff[1][0] if len(ff) == 2 else None
-    args = [norm(a.args[0]) if isinstance(a, ast.Call) and norm(a.func) in ("str", "repr") and a.args
-            else norm(a) for a in call.args]
+    outer, flds = af
+    args = [f_[1] for f_ in flds]
     ok_order = args == ["self.t_from", "self.t_to"]
     rep.add("print-parse", c + "::ends printed in order", tm.where(st), ok_order,
             "" if ok_order else "printed ends are {}".format(args))
-    splits = [c_ for c_ in calls_in(fs, "split") if c_.args and isinstance(c_.args[0], ast.Constant)]
-    psep = splits[0].args[0].value if splits else None
-    ok_sep = sep is not None and sep == psep
-    rep.add("print-parse", c + "::separator", tm.where(fs), ok_sep,
-            "" if ok_sep else "printed separator {!r} vs parsed separator {!r}".format(sep, psep))
+    if not ok_order:
+        return
+    lits = [p_[1] for p_ in parts if p_[0] == "lit"]
+    sep = None
+    seq = [p_[0] for p_ in parts]
+    if seq == ["field", "lit", "field"]:
+        sep = parts[1][1]
     # separator cannot occur inside a printed Time
-    tstr = tm.func("Time.__str__")
-    tret = [r for r in ast.walk(tstr) if isinstance(r, ast.Return)][0].value
-    tlit = tret.func.value.value if isinstance(tret, ast.Call) and isinstance(tret.func, ast.Attribute) and \
-        isinstance(tret.func.value, ast.Constant) else None
-    if tlit is not None and sep is not None:
-        lits = "".join(l for l, _, _, _ in string.Formatter().parse(tlit))
-        pieces = [l for l, _, _, _ in string.Formatter().parse(tlit)]
-        inside = any(sep in (p or "") for p in pieces) or sep.strip() == ""
+    tparts = ft_.returned_template(tm, tm.func("Time.__str__"))
+    if tparts is not None and sep is not None:
+        pieces = [p_[1] for p_ in tparts if p_[0] == "lit"]
+        inside = any(sep in p_ for p_ in pieces) or sep.strip() == ""
         rep.add("print-parse", c + "::separator not inside an end", tm.where(st), not inside,
                 "" if not inside else "the interval separator {!r} occurs inside the printed form of an end".format(sep))
-    # from_str: t_from <- bounds[0], t_to <- bounds[1]; None marker
-    kws = {}
-    for call2 in calls_in(fs, "cls") + calls_in(fs, "Interval"):
-        for k in call2.keywords:
-            kws[k.arg] = norm(k.value)
-    idx = {}
-    for a in ast.walk(fs):
-        if isinstance(a, ast.Assign) and len(a.targets) == 1 and isinstance(a.targets[0], ast.Name):
-            m = [s_ for s_ in ast.walk(a.value) if isinstance(s_, ast.Subscript) and isinstance(s_.slice, ast.Constant)]
-            if m:
-                idx[a.targets[0].id] = {x.slice.value for x in m}
-    ok = idx.get(kws.get("t_from")) == {0} and idx.get(kws.get("t_to")) == {1}
+    A, B = "\ue000A\ue001", "\ue000B\ue001"
+    icls = ctx.model.env("ctparse.types").get("Interval")
+
+    def run(a_text, b_text):
+        seen = []
+
+        def hook(obj, attr, hargs, kwargs):
+            if isinstance(obj, e1.ClassRef) and attr == "from_str":
+                seen.append(hargs[0] if hargs else None)
+                return e1.Probe("time:" + str(hargs[0] if hargs else None), hargs, kwargs)
+            return NotImplemented
+        try:
+            r = _fold_call(ctx, tm, fs, [icls, outer.format(a_text, b_text)], hook)
+        except e1._Raised as e:
+            return None, seen, "raises " + e.what[:40]
+        except (Undecided, e1.StepBudget) as e:
+            return None, seen, "undecided: " + str(e)
+        ends = {}
+        if isinstance(r, e1.Opaque) and r.kind == "instance":
+            cref, iargs, ikw, _n = r.info
+            init = tm.funcs.get("Interval.__init__")
+            pnames = [a_.arg for a_ in init.args.args][1:] if init is not None else ["t_from", "t_to"]
+            ends = dict(zip(pnames, iargs))
+            ends.update(ikw)
+        return ends, seen, None
+
+    def lab(v):
+        return v.label[5:] if isinstance(v, e1.Probe) else v
+    ends, seen, err = run(A, B)
+    if err and err.startswith("undecided"):
+        rep.undecided("print-parse", c + "::from_str", tm.where(fs), err)
+        return
+    ok = not err and ends is not None and lab(ends.get("t_from")) == A and lab(ends.get("t_to")) == B
     rep.add("print-parse", c + "::ends parsed in order", tm.where(fs), ok,
-            "" if ok else "from_str assigns the ends from {}".format({k: sorted(v) for k, v in idx.items()}))
-    none_ok = all('"None"' in norm(a.value) or "'None'" in norm(a.value) for a in ast.walk(fs)
-                  if isinstance(a, ast.Assign) and isinstance(a.targets[0], ast.Name) and a.targets[0].id in idx)
-    rep.add("print-parse", c + "::open end marker", tm.where(fs), none_ok,
-            "" if none_ok else "an open end prints as 'None' but is not parsed back as open")
+            "" if ok else "from_str on '<A>{}<B>' {}".format(sep, err or "gives t_from={}, t_to={}".format(
+                lab((ends or {}).get("t_from")), lab((ends or {}).get("t_to")))).replace(A, "<A>").replace(B, "<B>"))
+    rep.add("print-parse", c + "::separator", tm.where(fs), ok and sep is not None,
+            "" if ok and sep is not None else "the printed separator {!r} is not what from_str splits at".format(sep))
+    # open ends: printed as str(None)
+    none_ok = True
+    det = ""
+    for a_text, b_text, which in (("None", B, "t_from"), (A, "None", "t_to")):
+        ends, seen, err = run(a_text, b_text)
+        if err or ends is None or ends.get(which) is not None or "None" in seen:
+            none_ok = False
+            det = det or "an open {} prints as 'None' but from_str {}".format(
+                which, err or "reads it as {}".format(lab((ends or {}).get(which))))
+    rep.add("print-parse", c + "::open end marker", tm.where(fs), none_ok, det)
 
 
 def _duration_print_parse(ctx, rep):
-    tm = ctx.mod("ctparse.types")
+    tm = ctx.imod("ctparse.types")
     st = tm.func("Duration.__str__")
     fs = tm.func("Duration.from_str")
     c = tm.rel + "::Duration"
-    ret = [r for r in ast.walk(st) if isinstance(r, ast.Return)]
-    call = ret[0].value if ret else None
-    ok = isinstance(call, ast.Call) and isinstance(call.func, ast.Attribute) and call.func.attr == "format" \
-        and isinstance(call.func.value, ast.Constant) and [norm(a) for a in call.args] == ["self.value", "self.unit.value"]
-    lit = call.func.value.value if ok else None
-    ok = ok and lit == "{} {}"
+    parts = ft_.returned_template(tm, st)
+    af = ft_.as_format(parts) if parts is not None else None
+    srcs = [f_[1] for f_ in af[1]] if af else None
+    ok = af is not None and srcs == ["self.value", "self.unit.value"] and af[0] == "{} {}"
     rep.add("print-parse", c + "::printed as '<amount> <unit value>'", tm.where(st), bool(ok),
-            "" if ok else "printer is {}".format(norm(call) if call is not None else None))
-    src = norm(fs)
-    ok2 = ".split(" in src and "int(" in src and "DurationUnit(" in src
-    rep.add("print-parse", c + "::parsed as amount, unit", tm.where(fs), ok2,
-            "" if ok2 else "from_str does not split into int amount and unit value")
+            "" if ok else "printer is {}".format(af[0] if af else "not understood") + " over {}".format(srcs))
     env = ctx.model.env("ctparse.types")
     du = env.get("DurationUnit")
+    dcls = env.get("Duration")
     vals = [m.value for m in du.members.values()] if isinstance(du, e1.ClassRef) else []
+    # from_str, constant-propagated on every printed unit: amount and unit come back
+    ok2 = bool(vals) and ok
+    det2 = ""
+    if ok:
+        for m in du.members.values():
+            try:
+                r = _fold_call(ctx, tm, fs, [dcls, af[0].format(1234, m.value)], lambda *a_: NotImplemented)
+            except e1._Raised as e:
+                ok2, det2 = False, det2 or "from_str raises {} on '1234 {}'".format(e.what[:40], m.value)
+                continue
+            except (Undecided, e1.StepBudget) as e:
+                rep.undecided("print-parse", c + "::parsed as amount, unit", tm.where(fs), str(e))
+                ok2 = None
+                break
+            got = None
+            if isinstance(r, e1.Opaque) and r.kind == "instance":
+                _cref, iargs, ikw, _n = r.info
+                init = tm.funcs.get("Duration.__init__")
+                pn = [a_.arg for a_ in init.args.args][1:] if init is not None else ["value", "unit"]
+                got = dict(zip(pn, iargs))
+                got.update(ikw)
+            if not (got and got.get("value") == 1234 and got.get("unit") == m):
+                ok2 = False
+                det2 = det2 or "from_str('1234 {}') gives {}".format(m.value, got)
+    if ok2 is not None:
+        rep.add("print-parse", c + "::parsed as amount, unit", tm.where(fs), bool(ok2),
+                det2 if not ok2 else "")
     ws = [v for v in vals if not isinstance(v, str) or any(ch.isspace() for ch in v) or v == ""]
     dup = len(set(vals)) != len(vals)
     rep.add("print-parse", c + "::unit values are single distinct tokens", tm.where(st), not ws and not dup and bool(vals),
-            "" if not ws and not dup else "unit values {} break the split-based parser".format(ws or vals))
+            "" if (not ws and not dup and vals) else "unit values {} are not distinct single tokens".format(vals))
+
+
+def _fold_call(ctx, mod, fnode, args, hook):
+    """constant-propagate one call of a package function (e1.PureEval) with external / class
+    method calls answered by *hook*"""
+    ev = e1.PureEval(ctx.model, mod, dict(ctx.model.env(mod.name)), budget=50000)
+    ev.ext_hook = hook
+    ev.globals_decl = set()
+    ev.allow_methods = True
+    return ev.call_func(e1.FuncRef(mod, fnode, closure={}), args, {})
 
 
 def _offsets(ctx, rep, names, pf, cm):
-    tm = ctx.mod("ctparse.types")
+    """parse_nb_string hands from_str exactly what nb_str put between the braces: nb_str's
+    template (sa/checks/fmtterms.py) is instantiated with each class name and a marker body,
+    and parse_nb_string is constant-propagated on that text."""
+    tm = ctx.imod("ctparse.types")
     nb = tm.func("Artifact.nb_str")
-    ret = [r for r in ast.walk(nb) if isinstance(r, ast.Return)][0].value
-    if not (isinstance(ret, ast.Call) and isinstance(ret.func, ast.Attribute) and isinstance(ret.func.value, ast.Constant)):
-        rep.undecided("prefix-offsets", tm.rel + "::Artifact.nb_str", tm.where(nb), "nb_str is not literal.format(...)")
+    parts = ft_.returned_template(tm, nb)
+    af = ft_.as_format(parts) if parts is not None else None
+    if af is None or len(af[1]) != 2:
+        rep.undecided("prefix-offsets", tm.rel + "::Artifact.nb_str", tm.where(nb), "nb_str is not a "
+                      "template of the class name and the text form")
         return
-    lit = ret.func.value.value
-    for branch in ast.walk(pf):
-        if not (isinstance(branch, ast.If) and isinstance(branch.test, ast.Call) and
-                isinstance(branch.test.func, ast.Attribute) and branch.test.func.attr == "startswith"
-                and branch.test.args and isinstance(branch.test.args[0], ast.Constant)):
+    lit, flds = af
+    role = []
+    for (_k, src, spec, conv, absent, guard) in flds:
+        role.append("name" if "__name__" in src else ("body" if src in ("self",) or src.startswith("str(self") else "?"))
+    if sorted(role) != ["body", "name"]:
+        rep.undecided("prefix-offsets", tm.rel + "::Artifact.nb_str", tm.where(nb),
+                      "nb_str prints {} instead of the class name and str(self)".format([f_[1] for f_ in flds]))
+        return
+    body = "\ue000B}{ODY\ue001"
+    for cname in names:
+        text = lit.format(*[cname if r == "name" else body for r in role])
+        seen = []
+
+        def hook(obj, attr, args, kwargs, seen=seen):
+            if isinstance(obj, e1.ClassRef) and attr == "from_str":
+                seen.append((obj.name, args[0] if args else None))
+                return e1.Probe("parsed", args, kwargs)
+            if isinstance(obj, e1.Opaque) and attr in ("debug", "info", "warning"):
+                return None
+            return NotImplemented
+        det = ""
+        try:
+            _fold_call(ctx, cm, pf, [text], hook)
+        except e1._Raised as e:
+            det = "parse_nb_string raises {} on '{}'".format(e.what[:40], lit.format(*[cname if r == "name" else "..." for r in role]))
+        except (Undecided, e1.StepBudget) as e:
+            rep.undecided("prefix-offsets", "{}::parse_nb_string::{}".format(cm.rel, cname), cm.where(pf), str(e))
             continue
-        prefix = branch.test.args[0].value
-        for r in branch.body:
-            if isinstance(r, ast.Return) and isinstance(r.value, ast.Call):
-                cls = r.value.func.value.id if isinstance(r.value.func, ast.Attribute) and \
-                    isinstance(r.value.func.value, ast.Name) else None
-                sl = [s_ for s_ in ast.walk(r.value) if isinstance(s_, ast.Subscript) and isinstance(s_.slice, ast.Slice)]
-                if not sl or cls is None:
-                    continue
-                lo = sl[0].slice.lower.value if isinstance(sl[0].slice.lower, ast.Constant) else None
-                hi = norm(sl[0].slice.upper) if sl[0].slice.upper is not None else None
-                body = "\x00BODY\x00"
-                printed = lit.format(cls, body)
-                want_lo = printed.index(body)
-                want_hi = -(len(printed) - want_lo - len(body))
-                ok = lo == want_lo and hi == str(want_hi) and prefix == cls
-                rep.add("prefix-offsets", "{}::parse_nb_string::{}".format(cm.rel, cls), cm.where(r), ok,
-                        "" if ok else "slice [{}:{}] for prefix '{}' but nb_str prints '{}' ({} characters before "
-                        "the body, {} after)".format(lo, hi, prefix, lit.format(cls, "..."), want_lo, -want_hi))
+        ok = not det and seen == [(cname, body)]
+        if not ok and not det:
+            det = "for '{}' parse_nb_string calls {}".format(
+                lit.format(*[cname if r == "name" else "<body>" for r in role]),
+                [(n_, (a_ or "").replace(body, "<body>")) for n_, a_ in seen] or "no from_str")
+        rep.add("prefix-offsets", "{}::parse_nb_string::{}".format(cm.rel, cname), cm.where(pf), ok, det)
